@@ -81,7 +81,7 @@ def build_segments(shape: Shape, hist: List[Dict[str, Any]], root: str, store_ki
             assert last_prog is not None
             for v in shape.vars:
                 if prog["vval"][v] != last_prog["vval"][v]:
-                    cur["steps"].append({"op": "setvar", "var": v, "h": h,
+                    cur["steps"].append({"op": "setvar", "var": mat.pyname(shape, v), "h": h,
                                          "src": mat.var_value_src(shape, v, prog["vval"][v]),
                                          "inplace": mat.var_inplace_stmt(shape, v, prog["vval"][v]),
                                          "files": files})
